@@ -181,7 +181,7 @@ const NAMES: [&str; 17] = ["nl\ndir/inside.txt", "report\\table.csv", "esc\\new\
     "-leading-dash", "uni-\u{f8}-\u{6587}.txt", "new\nline.txt", "sub dir/nested file.txt", "sub dir/deep/x.log", ".hidden", "semi;colon&amp.txt"];
 const SIBLINGS: [&str; 14] = ["reports/q1.txt", "reports.txt", "reports-old/q1.txt", "reports old/q1.txt", "v1/x", "v1.1/notes", "v1+/y", "img/a.png", "img!/a.png", "ab/c", "ab.c", "a/b", "a.b", "a-b/c"];
 pub fn flag_sets() -> Vec<Vec<&'static str>> {
-    vec![vec![], vec!["--delete"], vec!["--delete", "--exclude", "*.log"], vec!["--exclude", "sub dir"], vec!["--delete", "-j", "4"]]
+    vec![vec![], vec!["--delete"], vec!["--delete", "--exclude", "*.log"], vec!["--exclude", "sub dir"], vec!["--delete", "-j", "4"], vec!["--delete", "--exclude", "uni-?-?.txt", "--exclude", "?hidden"]]
 }
 type Stamp = BTreeMap<String, (Vec<u8>, u64)>;
 struct PlanCase { sr: PathBuf, dr: PathBuf, flags: Vec<&'static str>, s0: Stamp, d0: Stamp, want: Stamp }
